@@ -160,6 +160,18 @@ def checkPipe (c : Case) : VM Unit := do
       let fs := sameState m fin.s
       if !fs.isEmpty then vdiff "C16,C05" "model-align-end-depots" s!"fields={fs}"
     | .error e => vdiff "C16" "model-align-end-depots-faults" s!"{repr e}"
+    vstat "pipe.types-with-2-cycles" (nw.typeIdxs.filter (fun vt => ((ls.s.transitionOf vt).cycles.filter (fun c => !c.vehicles.isEmpty)).length ≥ 2)).length
+    vstat "pipe.optimiser-changed-types" (nw.typeIdxs.filter (fun vt => (ls.s.transitionOf vt).cycles.map (·.vehicles) != (tr.s.transitionOf vt).cycles.map (·.vehicles))).length
+    -- C16: the transitions put into the schedule are exactly what the optimiser returned
+    let optLines := stageLines "optimised"
+    if !optLines.isEmpty then
+      let opt := parseSched optLines
+      for vt in nw.typeIdxs do
+        let a := (opt.s.transitionOf vt).canon
+        let b := (tr.s.transitionOf vt).canon
+        if a != b then
+          vfail "C16" "optimised-transition-not-carried" s!"type={vt} optimiser={(a.cycles.map (fun c => c.vehicles.map (·.idx)))} schedule={(b.cycles.map (fun c => c.vehicles.map (·.idx)))}"
+    else vdiff "C16" "optimiser-output-missing" ""
     -- C15: the optimiser's result is not worse than what it was given: (violation, counter)
     for vt in nw.typeIdxs do
       let a := ls.s.transitionOf vt
@@ -186,6 +198,7 @@ def checkPipe (c : Case) : VM Unit := do
   vstat "pipe.maint-instances" (if c.inst.maint.isEmpty then 0 else 1)
   vstat "pipe.cycles" out.cycles.length
   vstat "pipe.short-cycles" (out.cycles.filter (fun c => c.2.length ≤ 1)).length
+  vstat "pipe.long-cycles" (out.cycles.filter (fun c => c.2.length ≥ 3)).length
   vstat "pipe.overflow-vehicles" (out.vehicles.filter (fun v => v.startDepot == nw.overflowDepot)).length
   vstat "pipe.limit-binds" ((nw.idxsWhere Node.isService).filter (fun n =>
       match nw.maxFormationFor n with | some l => nw.requiredVehicles (nw.node n).vt n > l | none => false)).length
